@@ -354,6 +354,8 @@ func (e *Ev) binop(op token.Token, l, r Val, n ast.Node) Val {
 			t = sNot(x.Hit)
 		case VMapRef:
 			t = sEq(x.T, "0")
+		case VFuncParam:
+			t = x.Nil
 		default:
 			e.unsupp(n, "comparison of %T with nil", l)
 		}
